@@ -34,3 +34,10 @@ Theorem c07_pcall_swallows_refuted :
   forall d, exists s', exec 5 (Seq (Pcall Loop) (Finite 0)) (mkst 0 true d) = Some (Ok s').
 Proof. exact pcall_swallows. Qed.
 Print Assumptions c07_pcall_swallows_refuted.
+
+
+(* the same holds for a loop around a nested invocation, whose timeout error comes back as text *)
+Theorem c07_nested_invocation_loop_refuted :
+  forall fuel s, hook s = true -> exec fuel (Forever (Nested Loop)) s = None.
+Proof. exact forever_nested_never_returns. Qed.
+Print Assumptions c07_nested_invocation_loop_refuted.
